@@ -4,7 +4,7 @@ open Pcore.Ser
 #print axioms C10_hash_alternation
 #print axioms C10_caps
 #print axioms C10_refs_wellformed
-#print axioms C10_roundtrip
+#print axioms C10_roundtrip_partial
 #print axioms C10_shared_of_check
 #print axioms C10_reserved_key_collision
 #print axioms unb64_b64
